@@ -50,6 +50,13 @@ public:
         {
             _settings._dim.y = _info._height;
         }
+
+        io_error_if(  _settings._top_left.x < 0 || _settings._top_left.y < 0
+                   || _settings._dim.x < 0 || _settings._dim.y < 0
+                   || _settings._top_left.x + _settings._dim.x > static_cast< std::ptrdiff_t >( _info._width  )
+                   || _settings._top_left.y + _settings._dim.y > static_cast< std::ptrdiff_t >( _info._height )
+                   , "Requested region lies outside the image."
+                   );
     }
 
     void read_header()
